@@ -1120,3 +1120,93 @@ pub fn offsets_inside_multibyte(input: &[u8]) -> Vec<usize> {
     let lex = lex_states(input);
     (0..lex.len()).filter(|k| lex[*k] == Lex::Utf8Tail).collect()
 }
+
+
+// ---------------------------------------------------------------------------
+// Long tokens: lengths around the capacities and counters a reader may have
+
+pub const LONG_LENGTHS: &[usize] = &[127, 128, 129, 255, 256, 257, 4095, 4096, 4097, 8191, 8192, 8193, 65535, 65536, 65537, 100_000];
+
+/// One datum made of (or containing) a single very long token, followed by a
+/// short second datum so that the boundary after the long token is exercised.
+pub fn gen_long_token_text(rng: &mut Rng, f: ParseFields) -> Vec<u8> {
+    let n = *rng.pick(LONG_LENGTHS);
+    let mut out = Vec::with_capacity(n + 32);
+    let wrap = rng.chance(1, 3);
+    if wrap {
+        out.extend_from_slice(b"(a ");
+    }
+    match rng.below(7) {
+        0 => {
+            // symbol, optionally with multi-byte characters
+            let multi = rng.coin();
+            while out.len() < n {
+                if multi && rng.chance(1, 7) {
+                    out.extend_from_slice("λ".as_bytes());
+                } else {
+                    out.push(b'a' + rng.below(26) as u8);
+                }
+            }
+        }
+        1 => {
+            out.push(b'"');
+            let multi = rng.coin();
+            for i in 0..n {
+                if multi && i % 11 == 3 {
+                    out.extend_from_slice("é".as_bytes());
+                } else if i % 97 == 5 {
+                    out.extend_from_slice(if f.string == 0 { &b"\\x41;"[..] } else { &b"\\101"[..] });
+                } else {
+                    out.push(b'b');
+                }
+            }
+            out.push(b'"');
+        }
+        2 => {
+            // digits: far beyond u64 and beyond f64 range
+            for i in 0..n {
+                out.push(if i == 0 { b'1' } else { b'0' + rng.below(10) as u8 });
+            }
+            if rng.coin() {
+                out.extend_from_slice(b".5");
+            }
+        }
+        3 => {
+            out.extend_from_slice(b"1.");
+            for _ in 0..n {
+                out.push(b'0' + rng.below(10) as u8);
+            }
+            out.extend_from_slice(b"e3");
+        }
+        4 => {
+            out.push(b';');
+            for _ in 0..n {
+                out.push(b'c');
+            }
+            out.push(b'\n');
+            out.extend_from_slice(b"after-comment");
+        }
+        5 => {
+            out.extend_from_slice(b"#u8(");
+            for i in 0..n / 4 {
+                if i > 0 {
+                    out.push(b' ');
+                }
+                out.extend_from_slice((i % 256).to_string().as_bytes());
+            }
+            out.push(b')');
+        }
+        _ => {
+            // keyword / character-name shaped long tokens
+            out.extend_from_slice(*rng.pick(&[&b"#:"[..], b":", b"#\\", b"#\\x", b"?"]));
+            for _ in 0..n {
+                out.push(*rng.pick(b"abcdef0123456789"));
+            }
+        }
+    }
+    if wrap {
+        out.extend_from_slice(b" z)");
+    }
+    out.extend_from_slice(*rng.pick(&[&b" tail"[..], b"\ntail", b"(tail)", b"", b";c"]));
+    out
+}
